@@ -491,6 +491,11 @@ func (bkt *Bucket) get(ki *KeyInfo, memOnly bool) (payload *Payload, pos Positio
 
 	// here: same key hash, diff key
 
+	// the hints of the lower chunks are loaded in the background after open; until
+	// then the lookup below would not find a record that lives there
+	for atomic.LoadInt32(&bkt.loadingHints) != 0 {
+		time.Sleep(10 * time.Millisecond)
+	}
 	hintit, chunkID, err := bkt.hints.getItem(ki.KeyHash, ki.StringKey, false)
 	if err != nil || hintit == nil {
 		return
